@@ -471,7 +471,9 @@ func analyseVars(info *types.Info, outer ast.Node) *varInfo {
 // factMentions lists what a fact depends on.
 type factDeps struct {
 	locals   []types.Object
-	nonLocal bool // mentions fields, globals, derefs, calls other than len/cap
+	nonLocal bool         // mentions fields, globals, derefs, calls other than len/cap
+	fields   []*types.Var // mutable struct fields mentioned
+	opaque   bool         // globals, derefs, element reads, calls, unstable locals
 }
 
 func depsOf(info *types.Info, vi *varInfo, exprs ...ast.Expr) factDeps {
@@ -492,13 +494,16 @@ func depsOf(info *types.Info, vi *varInfo, exprs ...ast.Expr) factDeps {
 					if ob.IsField() {
 						if immutableFields == nil || !immutableFields[ob] {
 							d.nonLocal = true
+							d.fields = append(d.fields, ob)
 						}
 					} else if ob.Parent() == ob.Pkg().Scope() {
 						d.nonLocal = true
+						d.opaque = true
 					} else {
 						d.locals = append(d.locals, ob)
 						if vi != nil && !vi.stable[ob] {
 							d.nonLocal = true
+							d.opaque = true
 						}
 					}
 				}
@@ -513,15 +518,18 @@ func depsOf(info *types.Info, vi *varInfo, exprs ...ast.Expr) factDeps {
 				}
 			case *ast.StarExpr:
 				d.nonLocal = true
+				d.opaque = true
 			case *ast.CallExpr:
 				if !isConversion(info, t) {
 					name := calleeName(info, t)
 					if name != "builtin.len" && name != "builtin.cap" && !pureCallees[name] {
 						d.nonLocal = true
+						d.opaque = true
 					}
 				}
 			case *ast.IndexExpr:
 				d.nonLocal = true
+				d.opaque = true
 			}
 			return true
 		})
@@ -575,8 +583,10 @@ func (fg *FGraph) SolveFacts(vi *varInfo) {
 	}
 	// kill sets per node
 	type kill struct {
-		objs map[types.Object]bool
-		call bool
+		objs  map[types.Object]bool
+		call  bool
+		pkgs  map[*types.Package]bool // packages of static, non-pure callees
+		store bool                    // store through a pointer / whole-struct store
 	}
 	kills := make([]kill, len(fg.Nodes))
 	for i, n := range fg.Nodes {
@@ -588,7 +598,24 @@ func (fg *FGraph) SolveFacts(vi *varInfo) {
 		for _, o := range objs {
 			m[o] = true
 		}
-		kills[i] = kill{m, hc}
+		pk := map[*types.Package]bool{}
+		st := false
+		inspectNoLit(n.N, func(x ast.Node) bool {
+			switch t := x.(type) {
+			case *ast.CallExpr:
+				if f := calleeFunc(fg.Info, t); f != nil && f.Pkg() != nil && !pureStdlib(f.FullName()) && !writesNothing(f, 0) {
+					pk[f.Pkg()] = true
+				}
+			case *ast.AssignStmt:
+				for _, l := range t.Lhs {
+					if _, isStar := ast.Unparen(l).(*ast.StarExpr); isStar {
+						st = true
+					}
+				}
+			}
+			return true
+		})
+		kills[i] = kill{m, hc, pk, st}
 	}
 	full := func() factSet {
 		s := factSet{}
@@ -614,8 +641,25 @@ func (fg *FGraph) SolveFacts(vi *varInfo) {
 		k := kills[i]
 		for f := range s {
 			d := deps[f]
-			if k.call && d.nonLocal {
+			if k.store && d.nonLocal {
 				continue
+			}
+			if k.call && d.opaque {
+				continue
+			}
+			if k.call {
+				// a call can change a field only if it runs code of the field's own package
+				// (unexported fields) - calls through function values / interfaces into other
+				// packages are assumed not to re-enter this object
+				hitField := false
+				for _, fv := range d.fields {
+					if fv.Exported() || k.pkgs[fv.Pkg()] {
+						hitField = true
+					}
+				}
+				if hitField {
+					continue
+				}
 			}
 			dead := false
 			for _, l := range d.locals {
@@ -628,11 +672,18 @@ func (fg *FGraph) SolveFacts(vi *varInfo) {
 				continue
 			}
 			if d.nonLocal && len(k.objs) > 0 {
-				// a field/global store: kill facts that mention that field
+				// a field/global store: kill facts that mention that very field, and opaque facts
 				hit := false
 				for ob := range k.objs {
 					if v, ok := ob.(*types.Var); ok && (v.IsField() || (v.Pkg() != nil && v.Parent() == v.Pkg().Scope())) {
-						hit = true
+						if d.opaque {
+							hit = true
+						}
+						for _, fv := range d.fields {
+							if fv == v {
+								hit = true
+							}
+						}
 					}
 				}
 				if hit {
@@ -954,4 +1005,73 @@ func (fg *FGraph) FactsAtPos(pos token.Pos) []Fact {
 		walk(n)
 	}
 	return out
+}
+
+// curCtx is the configuration being analysed (set by Load); used to look up
+// callee bodies for the purity test below.
+var curCtx *Ctx
+var writesNothingCache = map[*types.Func]int{}
+
+// writesNothing: the function (of the repository) stores to nothing but its
+// own locals and calls only functions with the same property or pure library
+// functions. Such a call cannot invalidate facts about fields.
+func writesNothing(f *types.Func, depth int) bool {
+	if curCtx == nil || depth > 3 {
+		return false
+	}
+	f = f.Origin()
+	if v, ok := writesNothingCache[f]; ok {
+		return v == 1
+	}
+	writesNothingCache[f] = 0 // recursion guard: assume impure while computing
+	fi := funcDeclOf(curCtx, f)
+	if fi == nil {
+		return false
+	}
+	info := fi.Pkg.TypesInfo
+	ok := true
+	ast.Inspect(fi.Decl.Body, func(n ast.Node) bool {
+		if !ok {
+			return false
+		}
+		switch t := n.(type) {
+		case *ast.AssignStmt:
+			for _, l := range t.Lhs {
+				if _, isId := ast.Unparen(l).(*ast.Ident); !isId {
+					ok = false
+				} else if o, isVar := info.Uses[ast.Unparen(l).(*ast.Ident)].(*types.Var); isVar && o.Pkg() != nil && o.Parent() == o.Pkg().Scope() {
+					ok = false
+				}
+			}
+		case *ast.IncDecStmt:
+			if _, isId := ast.Unparen(t.X).(*ast.Ident); !isId {
+				ok = false
+			}
+		case *ast.GoStmt, *ast.SendStmt, *ast.DeferStmt:
+			ok = false
+		case *ast.CallExpr:
+			if isConversion(info, t) {
+				return true
+			}
+			name := calleeName(info, t)
+			if strings.HasPrefix(name, "builtin.") {
+				if name == "builtin.copy" || name == "builtin.delete" || name == "builtin.close" {
+					ok = false
+				}
+				return true
+			}
+			if pureStdlib(name) {
+				return true
+			}
+			if g := calleeFunc(info, t); g != nil && curCtx.IsRarePkg(g.Pkg()) && writesNothing(g, depth+1) {
+				return true
+			}
+			ok = false
+		}
+		return true
+	})
+	if ok {
+		writesNothingCache[f] = 1
+	}
+	return ok
 }
